@@ -36,6 +36,7 @@ type actJ struct {
 type linkJ struct {
 	Key  int    `json:"key"` // request header X<key>; -1 = no operator (SecAction)
 	Rm   []int  `json:"rm,omitempty"`
+	Eng  string `json:"eng,omitempty"`  // ctl:ruleEngine=<On|DetectionOnly|Off> on this link
 	Acts []actJ `json:"acts,omitempty"` // flow actions written on the link (inert on non-starters)
 }
 
@@ -55,7 +56,7 @@ type obsJ struct {
 }
 
 type caseJ struct {
-	Engine     string  `json:"engine"` // On | DetectionOnly
+	Engine     string  `json:"engine"` // configured SecRuleEngine: On | DetectionOnly | Off
 	Rules      []ruleJ `json:"rules"`
 	Req        []bool  `json:"req"`
 	Shape      string  `json:"shape,omitempty"`
@@ -117,6 +118,9 @@ func confText(engine string, rules []ruleJ) string {
 			}
 			for _, id := range l.Rm {
 				acts = append(acts, "ctl:ruleRemoveById="+strconv.Itoa(id))
+			}
+			if l.Eng != "" {
+				acts = append(acts, "ctl:ruleEngine="+l.Eng)
 			}
 			if j+1 < len(r.Links) {
 				acts = append(acts, "chain")
@@ -310,11 +314,30 @@ func rulesTerm(rules []ruleJ) string {
 			if j == 0 {
 				la = nil
 			}
-			ls[j] = "mkLink " + key + " " + natList(l.Rm) + " " + actsTerm(la, mi)
+			ls[j] = "mkLink " + key + " " + natList(l.Rm) + " " + optMode(l.Eng) + " " + actsTerm(la, mi)
 		}
 		items[i] = fmt.Sprintf("mkRule %d %d None %s %s", r.ID, r.Phase, vh.List(ls), actsTerm(r.Acts, mi))
 	}
 	return vh.List(items)
+}
+
+func modeTerm(m string) string {
+	switch m {
+	case "On":
+		return "MOn"
+	case "DetectionOnly":
+		return "MDet"
+	case "Off":
+		return "MOff"
+	}
+	panic("unknown engine mode " + m)
+}
+
+func optMode(m string) string {
+	if m == "" {
+		return "None"
+	}
+	return "(Some " + modeTerm(m) + ")"
 }
 
 func boolList(l []bool) string {
@@ -341,7 +364,7 @@ func optPair(p []int) string {
 }
 
 func caseTerm(rulesName string, c *caseJ) string {
-	return fmt.Sprintf("Case %s %s %s %s %s %s %s", vh.Bool(c.Engine == "On"), rulesName, boolList(c.Req),
+	return fmt.Sprintf("Case %s %s %s %s %s %s %s", modeTerm(c.Engine), rulesName, boolList(c.Req),
 		natLists(c.Obs.Evaluated), natLists(c.Obs.Matched), optPair(c.Obs.Intr), optPair(c.Obs.DIntr))
 }
 
@@ -451,7 +474,7 @@ func Run(cfg vh.Config) (*vh.Result, error) {
 			}
 			c.Obs = obs
 			// implementation-side oracle: the documented semantics, directly
-			want, kinds := specRun(set.Engine == "On", set.Rules, req)
+			want, kinds := specRun(set.Engine, set.Rules, req)
 			fired := len(kinds)
 			res.OracleEvaluations++
 			if d := diffObs(want, obs); d != "" {
